@@ -17,7 +17,7 @@ type C04Case struct {
 func genHistoryWorld(g gen.G, depBoostPct int) m.WorldM {
 	o := gen.WorldOpts{
 		Schema:   gen.SchemaOpts{MaxDepth: 2, DepBoost: g.Chance(depBoostPct)},
-		Cfg:      gen.CfgOpts{Violations: 6, Layout: false, HalfTyped: 12},
+		Cfg:      gen.CfgOpts{Violations: 6, Layout: false, HalfTyped: 12, RefHeavy: g.Chance(45), CallHeavy: g.Chance(40)},
 		MaxPaths: 2, MaxFiles: 2, Edits: 1, Faults: true,
 	}
 	if g.Chance(50) {
